@@ -35,6 +35,8 @@ class Gen:
 
     def fresh(self, p="v"):
         self.n += 1
+        if "%s%d" % (p, self.n) in BYNAME:          # i8, i16, i32 ... are type names
+            self.n += 1
         return "%s%d" % (p, self.n)
 
     def pick_int(self):
@@ -200,6 +202,8 @@ def gen_program(seed, size=12, features=None):
             kinds += ["meth", "meth"]
         if g.feat.get("brk", True) and depth > 0:
             kinds.append("brk")
+        if g.feat.get("clo", True) and depth > 0 and ints:
+            kinds.append("cloarr")
         if g.feat.get("forin", True) and depth > 0 and sc_.of(lambda ty: ty[0] == "darr"):
             kinds.append("forin")
         if g.feat.get("enum", True) and depth > 0:
@@ -342,6 +346,31 @@ def gen_program(seed, size=12, features=None):
                 out_a.append({"k": "print", "e": V(m)})
             for fi in range(2):
                 out_a.append({"k": "print", "e": {"k": "field", "e": V(n), "f": "AB"[fi]}})
+            return True
+        if kind == "cloarr":
+            # function literals created in the iterations of a loop, each over a variable declared in the loop body,
+            # kept in an array and called after the loop: every literal sees the variable of its own iteration
+            t = sc_.vars[r.choice(ints)][1]
+            fs, i, n = g.fresh("fs"), g.fresh("i"), r.randint(2, 3)
+            i32 = BYNAME["i32"]
+            out_a.append({"k": "let", "n": fs, "dty": "[]fn(y: %s) -> %s" % (t[0], t[0]), "e": {"k": "array", "es": []}})
+            out_a.append({"k": "let", "n": i, "dty": "i32", "e": lit_ast(i32, 0)})
+            kv = g.fresh("k")
+            base, _ = int_atom(t, sc_)
+            body = [{"k": "let", "n": kv, "dty": t[0], "e": {"k": "bin", "op": "+", "l": base, "ty": tyj(t),
+                                                              "r": {"k": "cast", "e": V(i), "ty": tyj(t)} if t != i32 else V(i)}},
+                    {"k": "append", "lv": V(fs), "e": {"k": "fnlit", "params": ["y"], "ptys": [t[0]], "rty": t[0], "ind": ind + 2, "body": [
+                        {"k": "ret", "e": {"k": "bin", "op": r.choice(["+", "-", "*"]), "l": V(kv), "r": V("y"), "ty": tyj(t)}}]}},
+                    {"k": "assign", "lv": V(i), "e": {"k": "bin", "op": "+", "l": V(i), "r": lit_ast(i32, 1), "ty": tyj(i32)}}]
+            out_a.append({"k": "while", "c": {"k": "cmp", "op": "<", "l": V(i), "r": lit_ast(i32, n)}, "b": body})
+            sc_.vars[i] = ("int", i32)
+            sc_.frozen.add(i)
+            for j in r.sample(range(n), n):
+                gname, m = g.fresh("g"), g.fresh()
+                out_a.append({"k": "let", "n": gname, "dty": "", "e": {"k": "index", "e": V(fs), "i": lit_ast(i32, j)}})
+                out_a.append({"k": "let", "n": m, "dty": t[0], "e": {"k": "callv", "f": gname, "args": [lit_ast(t, r.randint(1, 9))]}})
+                sc_.vars[m] = ("int", t)
+                out_a.append({"k": "print", "e": V(m)})
             return True
         if kind == "forin":
             n = r.choice(sc_.of(lambda ty: ty[0] == "darr"))
